@@ -15,6 +15,7 @@ package html
 
 import (
 	"bytes"
+	"errors"
 	"fmt"
 	"io"
 	"testing"
@@ -33,7 +34,13 @@ type c39Case struct {
 	Ctx         string `json:"ctx"`
 	Access      int    `json:"access"`
 	NotRaw      bool   `json:"not_raw"`
+	// Fail: the reader ends with an error of its own instead of io.EOF (with
+	// eof_with_data: in the same Read call as the last bytes). What it delivered before
+	// is input like any other.
+	Fail bool `json:"fail,omitempty"`
 }
+
+var errC39Source = errors.New("c39: the source failed")
 
 var c39Contexts = []string{"", "", "", "", "", "", "", "", "", "", "", "", "", "", "", "", "", "", "", "", "", "", "", "", "", "div", "title", "textarea", "script", "style", "plaintext", "xmp", "TITLE", "svg", "noscript"}
 var c39MaxBufs = []int{0, 0, 0, 0, 0, 0, 0, 0, 0, 0, 0, 0, 0, 1, 2, 3, 4, 5, 7, 16, 64, 300, 4095, 4096, 4097, 8192}
@@ -48,6 +55,7 @@ func c39Gen(t *rapid.T) c39Case {
 		Ctx:         rapid.SampledFrom(c39Contexts).Draw(t, "ctx"),
 		Access:      rapid.IntRange(0, 4).Draw(t, "access"),
 		NotRaw:      rapid.IntRange(0, 7).Draw(t, "notraw") == 0,
+		Fail:        rapid.IntRange(0, 5).Draw(t, "fail") == 0,
 	}
 }
 
@@ -192,6 +200,13 @@ func c39UnterminatedTag(r []byte) bool {
 func c39Prop(c c39Case, r *vp.Rec) error {
 	in := c.Input
 	rd := &soupChunkReader{data: in, sizes: c.Chunks, eofWithData: c.EOFWithData}
+	if c.Fail {
+		rd.endErr = errC39Source
+		r.Class("source-ends-with-its-own-error")
+		if c.EOFWithData {
+			r.Class("source-error-arrives-with-the-last-bytes")
+		}
+	}
 	var z *Tokenizer
 	if c.Ctx != "" {
 		z = NewTokenizerFragment(rd, c.Ctx)
@@ -278,7 +293,7 @@ func c39Prop(c c39Case, r *vp.Rec) error {
 	}
 	rest := in[len(concat):]
 	switch {
-	case err == io.EOF:
+	case err == io.EOF && !c.Fail, err == errC39Source && c.Fail:
 		if len(rest) != 0 {
 			if !c39UnterminatedTag(rest) {
 				return fmt.Errorf("lossy tokenization: Raw() of all tokens gives %s, input is %s; the omitted tail %s is not an unterminated tag", soupQ(concat), soupQ(in), soupQ(rest))
@@ -301,7 +316,7 @@ func c39Prop(c c39Case, r *vp.Rec) error {
 		if cap(z.buf) > bound {
 			return fmt.Errorf("SetMaxBuf(%d): internal buffer grew to cap %d (> %d)", c.MaxBuf, cap(z.buf), bound)
 		}
-		if err == io.EOF {
+		if err == io.EOF || err == errC39Source {
 			r.Class("maxbuf-not-hit")
 		}
 	}
